@@ -418,6 +418,47 @@ def gen_selected(loader, check, replay_on=True):
                     check.ob("conditional_expr#side-effect-of-an-arm-runs-only-if-that-arm-is-selected", inst, pc, guarded, replay=rp,
                              detail="the pending effect of the arm is sequenced unconditionally")
 
+    # a value-unused operation as a STATEMENT of an if / else arm (if (c) { k++; } else { k--; }): its side effect belongs to that arm
+    for arm in ("then", "else"):
+        inst = f"if (c) {{ k++; }} else {{ s; }}: value-unused postfix statement in the {arm} arm" if arm == "then" else "if (c) { s; } else { k++; }: value-unused postfix statement in the else arm"
+        check.instances_declared += 1
+
+        def setup_s(it, arm=arm):
+            t = tkit.mk_transformer(it)
+            h, _ = mk_hybrid(it, loader, "postinc")
+            tmp = it.call(tkit.method(it, t, "resolve_hybrid"), [h], {})
+            pend = list(pending(t).values())[0]
+            c = irkit.mk_operand(it, "Variable", (True, 32), "c")
+            other = c05.mk_effect(it, loader, "Assignment", "s")
+            items = [Token("IF", "if"), c, [tmp], Token("ELSE", "else"), [other]] if arm == "then" else [Token("IF", "if"), c, [other], Token("ELSE", "else"), [tmp]]
+            it.ctx.mark_pre(t)
+            return {"t": t, "items": items, "pend": pend, "other": other}
+        ex = explore(loader, setup_s, lambda it, st: it.call(tkit.method(it, st["t"], "selection_stmt"), [st["items"]], {}))
+        check.absorb(ex, f"selection_stmt {inst}")
+        if ex.paths:
+            check.instances_generated += 1
+        for p in ex.paths:
+            pc = p.ctx.pc
+            check.ob("selection_stmt#total", inst, pc, p.outcome == "return", detail="" if p.outcome == "return" else f"raises {p.value!r}")
+            if p.outcome != "return":
+                continue
+            b = p.value
+
+            def effects_of(o, depth=0):
+                out = []
+                if isinstance(o, Obj) and depth < 6:
+                    out.append(o)
+                    for e in (o.fields.get("effects") or []):
+                        out += effects_of(e, depth + 1)
+                return out
+            ok = isinstance(b, Obj) and b.cls is Br
+            inside = ok and any(e is p.state["pend"] for e in effects_of(b.fields["then" if arm == "then" else "otherwise"]))
+            other_side = ok and any(e is p.state["pend"] for e in effects_of(b.fields["otherwise" if arm == "then" else "then"]))
+            rp = ("c06.source", lambda mdl, arm=arm: {"case": f"stmt-in-arm-{arm}"}) if replay_on else None
+            check.ob("selection_stmt#side-effect-of-a-statement-in-an-arm-runs-exactly-in-that-arm", inst, pc,
+                     bool(inside) and not other_side and len(pending(p.state["t"])) == 0, replay=rp,
+                     detail=f"inside its arm: {inside}; in the other arm: {other_side}; still pending: {list(pending(p.state['t']))}")
+
     # both arms are statement-expressions: each one is guarded by its own side of the condition
     inst = "stmt-expr in both arms"
     check.instances_declared += 1
@@ -594,6 +635,27 @@ def replay_source(a):
         inc = [l.split("*")[1].split(" ")[0] for l in txt.splitlines() if "SEQN(2, op_ASSIGN_hybrid_tmp" in l][0]
         args = seq[seq.index("(") + 1:].split(", ")
         return args[1].strip() == inc, f"{{ x = n; n++; x = n; }}: the increment {inc} is the first effect of {seq.strip()} - before x = n (C: between the two assignments)"
+    if case.startswith("stmt-in-arm-"):
+        arm = case.rsplit("-", 1)[1]
+        src = "{ int32_t k = 0; if (RsV) { k++; } else { RtV = 1; } RdV = k; }" if arm == "then" else "{ int32_t k = 0; if (RsV) { RtV = 1; } else { k++; } RdV = k; }"
+        txt = c.compile_c_stmt(src)
+        lines = txt.splitlines()
+        inc = [l.split("*")[1].split(" ")[0] for l in lines if "RzILOpEffect *seq_" in l and "op_ASSIGN_hybrid_tmp" in l]
+        br = [l for l in lines if "BRANCH(" in l][0]
+        a_ = br[br.index("BRANCH(") + 7:br.rindex(")")].rsplit(", ", 2)
+        side = a_[1] if arm == "then" else a_[2]
+
+        def reaches(var, depth=0):
+            if depth > 6:
+                return False
+            d = [l for l in lines if f"*{var.strip()} = " in l]
+            if not d:
+                return False
+            if any(i in d[0].split("=", 1)[1] for i in inc):
+                return True
+            return any(reaches(v, depth + 1) for v in re.findall(r"seq_\w+", d[0].split("=", 1)[1]))
+        ok = bool(inc) and reaches(side)
+        return not ok, f"{src}: increment sequence {inc}; the {arm} arm of {br.strip()} {'contains' if ok else 'does NOT contain'} it"
     if case.startswith("order-"):
         n0 = int(case.split("-")[1])
         c.transformer.il_ops_holder.hybrid_op_count = n0      # the counter is never reset across behaviours: any value is reachable
